@@ -22,7 +22,10 @@ RULE = ("family par/split: single splits of both producers for every len ≤ 24 
         "split trees for len ≤ 6/8 (1-D) and grids up to 3×2 / 3×3 (2-D); degenerate (k=0, k=len) two-level trees; seeded random "
         "trees (uniform, bisecting, 1-element halves, contract-wide) to length 600 / 10^4, each leaf drained forward, reversed and "
         "mixed. family par/pools: Steps/Steps2D collect/enumerate/rev, every JointSpectrum::*_range on 5 range representations, "
-        "Simpson integrate/integrate2d, counts_*, hom_rate and nested regions under rayon pools {1,2,4,8}×2 / {1,2,3,4,8,16}×5 reps")
+        "Simpson integrate/integrate2d, counts_*, hom_rate and nested regions under rayon pools {1,2,4,8}×2 / {1,2,3,4,8,16}×5 reps. "
+        "family par/sweep (both tiers): hom_rate, hom_rate_series (synthetic amplitude arrays), SPDC::hom_rate_series, hom_visibility, "
+        "counts_*, efficiencies on grids n×n for n = 1..12 plus non-square and larger shapes, Simpson 1-D divs 128..256 and 2-D divs "
+        "4..24(64), each under EVERY pool size 1..16 against the 1-thread result at 1e-12")
 RESIDUAL = ("(a) floating-point re-association error of parallel sums and rounding drift of re-derived 1-D sub-range endpoints: "
             "measured (≤ 1e-12 / ≤ 1e-14), exact-arithmetic invariance is proved; (b) deadlock freedom of nested regions is a "
             "property of rayon's work-stealing scheduler: observed under a time cap only; (c) which split trees rayon requests "
@@ -42,4 +45,4 @@ ASSUMPTIONS = [
 
 def families(tier, seed):
     n = 160 if tier == "quick" else 1200
-    return [("par", seed, n, ["split"]), ("par", seed, n, ["pools"])]
+    return [("par", seed, n, ["split"]), ("par", seed, n, ["pools"]), ("par", seed, n, ["sweep"])]
